@@ -2,7 +2,7 @@
    invariant of WmWriteOnce.v plus, for every defined signal, the track invariant of its four tracks), shown
    for jls_wr_open and preserved by every API call and by jls_wr_close; from it the top-level theorems
 
-     wmw_run_accepted / wmw_steps_accepted / wmw_prefix_accepted
+     wmw_run_accepted / wmw_steps_accepted / wmw_prefix_accepted   (and wmw_reach_log_shape: where offset 0 is written)
 
    every log the writer model can emit (with or without close, and every prefix of it) is accepted by the strict
    write-once checker, under the guards "no model fault" and "bounded log" (WmWriteOnce.v).
@@ -144,15 +144,6 @@ Proof.
     assert (Hfr : wmw_fr None (wo_exts s) (wo_exts s1)) by (rewrite Hex; apply wmw_fr_cons; exact Hnone).
     exists s1. split; [|exact Hfr].
     eapply wmw_binv_fr; [exact Hb|exact Hfr|exact Hsim1|reflexivity|reflexivity|reflexivity].
-Qed.
-
-Lemma wmw_raw_close_bstep : forall b, wmw_bstep b (wm_b_set_raw b (wm_raw_close (wm_b_raw b))).
-Proof.
-  intro b. split; [apply wmw_le_close|].
-  intros s Hb _. pose proof Hb as (Hsim & _). destruct (wmw_sim_close _ _ Hsim) as (s' & Hsim' & Hex).
-  assert (Hfr : wmw_fr None (wo_exts s) (wo_exts s')) by (rewrite Hex; apply wmw_fr_refl).
-  exists s'. split; [|exact Hfr].
-  eapply wmw_binv_fr; [exact Hb|exact Hfr|exact Hsim'|reflexivity|reflexivity|reflexivity].
 Qed.
 
 Lemma wmw_raw_flush_bstep : forall b, wmw_bstep b (wm_b_set_raw b (wm_raw_flush (wm_b_raw b))).
@@ -587,16 +578,29 @@ Proof.
   eapply wmw_fstep_trans; [exact F1|]. eapply wmw_fstep_trans; [exact F2|exact F3].
 Qed.
 
-Lemma wmw_api_close_step : forall st, wmw_ststep st (wm_api_close summ1 summN st).
+(* jls_wr_close up to (not including) the final file-header write *)
+Definition wmw_close_pre (st : wm_state) : wm_state :=
+  let st1 := fold_left (wm_close_signal summ1 summN) wm_signal_ids st in
+  wm_st_set_base st1 (wm_core_wr_end (wm_st_base st1)).
+
+Lemma wmw_api_close_eq : forall st,
+  wm_api_close summ1 summN st =
+  wm_st_set_base (wmw_close_pre st) (wm_b_set_raw (wm_st_base (wmw_close_pre st)) (wm_raw_close (wm_b_raw (wm_st_base (wmw_close_pre st))))).
 Proof.
-  intro st. unfold wm_api_close. cbv zeta.
+  intro st. unfold wm_api_close, wmw_close_pre. cbv zeta.
+  generalize (fold_left (wm_close_signal summ1 summN) wm_signal_ids st). intro st1.
+  generalize (wm_core_wr_end (wm_st_base st1)). intro b. destruct st1. reflexivity.
+Qed.
+
+Lemma wmw_close_pre_step : forall st, wmw_ststep st (wmw_close_pre st).
+Proof.
+  intro st. unfold wmw_close_pre. cbv zeta.
   assert (H1 : forall l st0, wmw_ststep st0 (fold_left (wm_close_signal summ1 summN) l st0)).
   { induction l as [|id l IH]; intro st0; cbn [fold_left]; [apply wmw_ststep_refl|].
     eapply wmw_ststep_trans; [apply wmw_close_signal_step|apply IH]. }
   eapply wmw_ststep_trans; [apply (H1 wm_signal_ids st)|].
   set (st1 := fold_left (wm_close_signal summ1 summN) wm_signal_ids st).
-  apply wmw_ststep_bstep; [reflexivity|]. cbn [wm_st_base wm_st_set_base].
-  eapply wmw_bstep_trans; [apply wmw_core_wr_end_bstep|apply wmw_raw_close_bstep].
+  apply wmw_ststep_bstep; [reflexivity|]. cbn [wm_st_base wm_st_set_base]. apply wmw_core_wr_end_bstep.
 Qed.
 
 (* ---- any call, any program ---- *)
@@ -642,6 +646,14 @@ Proof.
   eapply wmw_ststep_trans; [exact H1|]. eapply wmw_ststep_trans; [exact H2|exact H3].
 Qed.
 
+Lemma wmw_run_snoc_inv : forall lenient l s i e s2, wo_run lenient s i (l ++ [e]) = inl s2 ->
+  exists s1, wo_run lenient s i l = inl s1 /\ wo_step lenient s1 e = inl s2.
+Proof.
+  induction l as [|x l IH]; intros s i e s2 H; cbn [app wo_run] in *.
+  - destruct (wo_step lenient s e) as [s1|] eqn:Es; [|discriminate]. exists s. split; [reflexivity|]. inversion H; subst. exact Es.
+  - destruct (wo_step lenient s x) as [s1|]; [|discriminate]. eapply IH; eauto.
+Qed.
+
 (* ================================================================ the theorems *)
 Lemma wmw_stinv_run : forall st s, wmw_stinv st s -> wo_run false wo_st0 0 (wmw_evs (wm_st_log st)) = inl s.
 Proof. intros st s ((Hsim & _) & _). exact (proj1 Hsim). Qed.
@@ -664,19 +676,64 @@ Proof.
   - unfold wo_check_log, wo_check_log_gen. rewrite (wmw_stinv_run _ _ Hs). reflexivity.
 Qed.
 
-(* jls_wr_open; p; jls_wr_close *)
+(* jls_wr_open; p; jls_wr_close.  The state before the final file-header write is reachable by invariant-preserving
+   steps; the last write is the file header with the final size. *)
+Definition wmw_fin (pre : wm_state) : wm_state :=
+  wm_st_set_base pre (wm_b_set_raw (wm_st_base pre) (wm_raw_close (wm_b_raw (wm_st_base pre)))).
+
+Lemma wmw_run_pre : forall summ1 summN p,
+  wmw_ststep wm_state0 (wmw_close_pre summ1 summN (fst (wm_steps summ1 summN wm_api_open p []))) /\
+  fst (wm_run_full summ1 summN p) = wmw_fin (wmw_close_pre summ1 summN (fst (wm_steps summ1 summN wm_api_open p []))).
+Proof.
+  intros summ1 summN p. unfold wm_run_full.
+  pose proof (wmw_steps_step summ1 summN p wm_api_open []) as H.
+  destruct (wm_steps summ1 summN wm_api_open p []) as [st1 rcs]. cbn [fst] in *. split.
+  - eapply wmw_ststep_trans; [apply wmw_api_open_step|]. eapply wmw_ststep_trans; [exact H|apply wmw_close_pre_step].
+  - apply wmw_api_close_eq.
+Qed.
+
+Lemma wmw_fin_accepted : forall pre, wmw_ststep wm_state0 pre ->
+  wm_st_fault (wmw_fin pre) = false -> wmw_bounded (wm_st_log (wmw_fin pre)) ->
+  exists s s', wmw_stinv pre s /\ wo_run false wo_st0 0 (wmw_evs (wm_st_log (wmw_fin pre))) = inl s' /\
+               wo_step false s (WoWrite 0 (wm_file_header_bytes (wm_fend (wm_b_raw (wm_st_base pre))))) = inl s'.
+Proof.
+  intros pre Hreach Hf Hb.
+  unfold wmw_fin, wm_st_fault, wm_st_log in *. cbn [wm_st_base wm_st_set_base wm_b_raw wm_b_set_raw] in *.
+  assert (Hgood : wmw_good (wm_raw_close (wm_b_raw (wm_st_base pre)))) by (split; assumption).
+  destruct (wmw_good_close _ Hgood) as [G1 G2].
+  destruct (wmw_reach_accepted pre Hreach G1 G2) as (s & Hinv).
+  pose proof Hinv as ((Hsim & _) & _).
+  destruct (wmw_sim_close _ _ Hsim) as (s' & Hsim' & _). exists s, s'. split; [exact Hinv|]. split; [exact (proj1 Hsim')|].
+  pose proof (proj1 Hsim') as Hrun'. destruct (wmw_close_log (wm_b_raw (wm_st_base pre))) as [L _].
+  rewrite L, wmw_evs_cons in Hrun'. cbn [wmw_to_wo] in Hrun'.
+  destruct (wmw_run_snoc_inv _ _ _ _ _ _ Hrun') as (s1 & E1 & E2).
+  pose proof (proj1 Hsim) as Hrun. unfold wm_st_log in Hrun. rewrite Hrun in E1. inversion E1; subst s1. exact E2.
+Qed.
+
+Lemma wmw_run_final : forall summ1 summN p,
+  let st := fst (wm_run_full summ1 summN p) in
+  wm_st_fault st = false -> wmw_bounded (wm_st_log st) ->
+  exists s', wo_run false wo_st0 0 (wmw_evs (wm_st_log st)) = inl s'.
+Proof.
+  intros summ1 summN p. cbv zeta. destruct (wmw_run_pre summ1 summN p) as [Hreach Heq]. rewrite Heq.
+  intros Hf Hb. destruct (wmw_fin_accepted _ Hreach Hf Hb) as (s & s' & _ & H & _). exists s'. exact H.
+Qed.
+
 Theorem wmw_run_accepted : forall summ1 summN p,
   let st := fst (wm_run_full summ1 summN p) in
   wm_st_fault st = false -> wmw_bounded (wm_st_log st) ->
   wo_check_log (wmw_evs (wm_st_log st)) = true.
 Proof.
-  intros summ1 summN p st Hf Hb.
-  destruct (wmw_reach_accepted st) as (s & Hs); [|exact Hf|exact Hb|].
-  - subst st. unfold wm_run_full.
-    pose proof (wmw_steps_step summ1 summN p wm_api_open []) as H.
-    destruct (wm_steps summ1 summN wm_api_open p []) as [st1 rcs]. cbn [fst] in *.
-    eapply wmw_ststep_trans; [apply wmw_api_open_step|]. eapply wmw_ststep_trans; [exact H|apply wmw_api_close_step].
-  - unfold wo_check_log, wo_check_log_gen. rewrite (wmw_stinv_run _ _ Hs). reflexivity.
+  intros summ1 summN p st Hf Hb. destruct (wmw_run_final summ1 summN p Hf Hb) as (s' & Hs).
+  unfold wo_check_log, wo_check_log_gen. fold st in Hs. rewrite Hs. reflexivity.
+Qed.
+
+(* the log of every reachable state: O_TRUNC, the file header with length 0, then no write at offset 0 *)
+Lemma wmw_reach_log_shape : forall st, wmw_ststep wm_state0 st -> wm_st_fault st = false ->
+  exists l, wm_st_log st = l ++ [WmWrite 0 (wm_file_header_bytes 0); WmTrunc 0] /\ wmw_nz l.
+Proof.
+  intros st [L _] Hf. destruct L as (l & Hl & F). exists l. split; [exact Hl|].
+  destruct (F Hf) as [_ P]. apply P. split; cbn; discriminate.
 Qed.
 
 (* every prefix of an accepted log is accepted *)
